@@ -598,6 +598,55 @@ theorem ReqOpt.scored {τ : Type} {O : DS τ} {VO : τ → List Nat → Prop} {W
 
 
 
+/-! ### the bitset leaf (constant score) -/
+
+namespace BitSet
+
+theorem seekLoop_score (t : Nat) : ∀ (n : Nat) (s : State), (seekLoop t n s).score = s.score
+  | 0, _ => rfl
+  | n + 1, s => by
+    simp only [seekLoop]
+    split
+    · rw [seekLoop_score t n, (advance_all s).2.2]
+    · rfl
+
+theorem seek_score (fx : Fix) (t : Nat) (s : State) : (seek fx t s).score = s.score := by
+  unfold seek
+  split
+  · split <;> rfl
+  · simp only
+    split
+    · rw [(advance_all _).2.2]
+    · exact seekLoop_score t _ s
+
+theorem ghost (fx : Fix) : Inter.Ghost (ds fx) (fun c (_ : Nat) => c.score) where
+  advance := fun s => congrArg (fun (x : Nat) (_ : Nat) => x) (advance_all s).2.2
+  seek := fun t s => congrArg (fun (x : Nat) (_ : Nat) => x) (seek_score fx t s)
+  seekDanger := fun t s => by
+    have key : (defaultSeekDanger (fun s : State => s.doc) (seek fx) t s).2.score = s.score := by
+      unfold defaultSeekDanger
+      by_cases h1 : t ≥ TERMINATED
+      · simp only [h1, if_true]
+      · simp only [h1, if_false]
+        by_cases h2 : s.doc < t
+        · simp only [h2, if_true]
+          split <;> exact seek_score fx t s
+        · simp only [h2, if_false]
+          split <;> rfl
+    exact congrArg (fun (x : Nat) (_ : Nat) => x) key
+  score := fun _ => rfl
+
+end BitSet
+
+/-- the bitset leaf with its constant score -/
+theorem BitSet.scored (fx : Fix) :
+    Scored (BitSet.ds fx) BitSet.V (defaultW BitSet.V) (fun c (_ : Nat) => c.score) where
+  lawful := BitSet.lawful fx
+  hscore := fun h => h
+  wscore := fun h => h
+  ghost := BitSet.ghost fx
+  hg := fun _ _ => rfl
+
 /-! ### every nesting -/
 
 /-- the scorer types that can be assembled, at any depth, from the sorted-vector leaf with the scoring
@@ -605,6 +654,7 @@ node kinds (each inner node paired with its total score function as ghost data) 
 inductive ScoredNode : (σ : Type) → DS σ → (σ → List Nat → Prop) → (σ → Nat → List Nat → Prop) →
     (σ → Nat → Nat) → Prop where
   | vec : ScoredNode Vec.State Vec.ds Vec.V (defaultW Vec.V) (fun c _ => c.score)
+  | bits (fx : Fix) : ScoredNode BitSet.State (BitSet.ds fx) BitSet.V (defaultW BitSet.V) (fun c _ => c.score)
   | small {σ : Type} {C : DS σ} {V : σ → List Nat → Prop} {W : σ → Nat → List Nat → Prop} {g : σ → Nat → Nat} :
       ScoredNode σ C V W g → ScoredNode σ C (RV V) (RW W) g
   | union {σ : Type} {C : DS σ} {V : σ → List Nat → Prop} {W : σ → Nat → List Nat → Prop} {g : σ → Nat → Nat}
@@ -637,6 +687,7 @@ theorem ScoredNode.scored {σ : Type} {C : DS σ} {V : σ → List Nat → Prop}
     {g : σ → Nat → Nat} (h : ScoredNode σ C V W g) : Scored C V W g := by
   induction h with
   | vec => exact Vec.scored
+  | bits fx => exact BitSet.scored fx
   | small _ ih => exact ih.restrict
   | union H hH hH0 fx _ ih => exact BUnion.scored ih hH hH0 fx
   | disj _ ih => exact Disj.scored ih
